@@ -1,4 +1,5 @@
 \* repaired model, two pushers, two listeners, close and crash
+\* measured: 7 259 132 / 29 231 131, depth 38 (distinct / generated states)
 CONSTANTS NTx = 2 Kind <- KindS Sender <- SenderS Nonce <- NonceS NAccs = 1 Accs <- MCAccs StartEmpty = FALSE
   Max = 3 NPushers = 2 NConsumers = 2 Batch = 2
   MaxPush = 3 MaxBlocks = 0 MaxFail = 0 MaxCrash = 1 MaxClose = 1 MaxPops = 0 MaxExecErr = 1 MaxFatal = 1
